@@ -316,6 +316,8 @@ int main(int argc, char **argv) {
         Case c = *gen;
         c.prop = prop;
         if (failing && st.shrink_evals >= g_max_shrink) return;   // stop shrinking: reject every further candidate
+        if (failing && lastOut.cls == "HANG" && st.shrink_evals >= 12) return;   // every step of a hanging case costs the full CPU budget
+        if (st.timeouts >= 5) { ++st.labels["skipped_after_repeated_timeouts"]; return; }   // the box is overloaded or the tree hangs: inconclusive, stop burning time
         Outcome o = run_forked(c);
         if (failing) ++st.shrink_evals; else ++st.evaluations;
         if (o.kind == Outcome::TIMEOUT) { ++st.timeouts; return; }           // inconclusive, never a violation
